@@ -338,6 +338,31 @@ theorem return_frees_node (cfg : Cfg) (hr : cfg.subNeverReturns = false) (p : Pr
       rw [nextTurn_subs, selectFlows_subs]
       exact hfree
 
+/-! ## the handover: the waiting token becomes the parent of the next activation -/
+
+/-- **Handover.** The scope of `t` is empty, `settle` lets `t` leave its sub-process node and puts the first token `w` waiting
+at that node on the work list; when `w` arrives (in the state `settle` left), it enters: it is the parent token of a new
+activation — the node's content is started for it like for any token that finds the node idle. -/
+theorem handover (cfg : Cfg) (hr : cfg.subNeverReturns = false) (hst : cfg.subStartSticky = false) (p : Proc) (s : St)
+    (t w : Tok) (n : Node) (h : OneEach s)
+    (hig : (settleIncl cfg p s []).1 = none)
+    (hfind : (settleIncl cfg p s []).2.subs.find? (fun u => !liveInScope p (settleIncl cfg p s []).2 u.node []) = some t)
+    (hn : p.node? t.node = some n) (hk : n.kind = .sub) (hw : w.node = t.node) :
+    (arrive cfg p (settle cfg p s).2 w).2.subs = (settle cfg p s).2.subs ++ [w] := by
+  have hfree := return_frees_node cfg hr p s t h hig hfind
+  have hid := node?_id p _ n hn
+  generalize settle cfg p s = r at hfree ⊢
+  obtain ⟨toks, s'⟩ := r
+  simp only at hfree ⊢
+  unfold arrive
+  rw [hw]
+  simp only [hn, hk]
+  have hidle : s'.subs.any (·.node == n.id) = false := by rw [hid]; exact hfree
+  simp only [hidle, Bool.false_eq_true, if_false]
+  rw [spawnStarts_subs]
+  unfold enterSub
+  simp [hst]
+
 /-! ## taking turns neither drops nor invents a token -/
 
 /-- the tokens that travel on plus the tokens that still wait, after `nextTurn`, are exactly those before it -/
